@@ -27,9 +27,9 @@ CHECKS = {
                 technique="runtime monitoring: own MMR model vs committed roots on every fork; proofs from the node verified against committed and rival roots; stored block filters decoded and matched against the model's scripts per main-chain block, with the builder thread held at hook points (H9) while reorgs are delivered",
                 text="For every generated block on every fork the committed chain root is compared with the harness's own MMR over the ancestors' digests; after every delivery run (i.e. after reorgs, incl. to shorter heavier branches) the root served by the node is checked to be the one the tip commits to, membership proofs for random position sets must verify against it and must not verify against the root of a competing fork; stored MMR nodes are compared with the model (shared with C02). Block-filter part (engine vfilter): the real BlockFilter builder runs after some operations only (backlogs, fork recovery) on a node that goes through real reorgs; for every main-chain block a filter must be stored, match blake2b(script) of every output lock/type and every spent-input lock/type (inputs from the model's replay of the parent plus same-block outputs), not match a control script, chain its hash to the parent's, and the latest-built marker must equal the tip; race episodes hold the builder between its snapshot and a block build while a heavier branch is delivered and later abandoned again.",
                 note=CHAIN_NOTE),
-    "C20": dict(engine="chain", category="exploration", design="4/C20",
-                technique="runtime monitoring: proposal view of every published snapshot (hook H3) vs own window arithmetic",
-                text="The proposal view (set/gap) of every published snapshot, of concurrently loaded snapshots, of quiescent nodes and of the builder node after truncations is compared with the model's window sets computed by its own arithmetic over the main chain (proposal ids of blocks and their uncles), for windows (2,10), (1,3), (1,1); also after a restart of the node on the same database (table rebuilt by the start-up path).",
+    "C20": dict(engine="chain+pool", category="exploration", design="4/C20",
+                technique="runtime monitoring: proposal view of every published snapshot (hook H3) vs own window arithmetic; dropped ids reported to the tx-pool (hook H5 notification log) vs model window difference",
+                text="The proposal view (set/gap) of every published snapshot, of concurrently loaded snapshots, of quiescent nodes and of the builder node after truncations is compared with the model's window sets computed by its own arithmetic over the main chain (proposal ids of blocks and their uncles), for windows (2,10), (1,3), (1,1); also after a restart of the node on the same database (table rebuilt by the start-up path). Pool-side clauses (engine pool, nodes running a tx-pool and block assembler through random submissions, blocks, reorgs of depth 1..w_far+3 and own mined templates): every notification the chain service sends to the pool carries exactly set(old tip) minus set(new tip) of the model as dropped ids, and the published view equals the model window at every tip change.",
                 note=CHAIN_NOTE),
     "C07": dict(engine="arith", category="exploration", design="4/C07",
                 technique="runtime monitoring: real APIs driven over boundary-biased inputs, JSONL records judged by an exact-arithmetic Python oracle; Miri on pure-Rust arithmetic (thorough)",
@@ -44,11 +44,11 @@ POOL_NOTE = ("Trusted: the H5 dump is taken under the pool's own write lock; ckb
 CHECKS.update({
     "C11": dict(engine="pool", category="exploration", design="4/C11",
                 technique="runtime monitoring: invariant recomputation over the pool dump (hook H5) after every operation of random op sequences on the real tx-pool service",
-                text="Random operation sequences (submissions over tx DAGs with chains, shared cell deps and header deps, conflicting submissions with RBF on/off, removals, expiry by virtual time, size-limit eviction with small limits, blocks and reorgs of depth 1..w_far+3, template mining, cell-dep users of cells a pooled transaction spends, submissions parked at the pool lock while a block commits a conflicting transaction, sessions with small max_block_bytes / max_block_cycles with late fills and child-pays-for-parent packages) drive the real TxPoolService; after every operation the dump is judged by recomputation: no double spends, input/dep/header-dep indexes equal the entries, links symmetric and equal to actual spends/deps (L_min subset links subset L_allowed), ancestor/descendant aggregates equal a fold over the link closure (also as reported by get_all_entry_info), totals and per-status counters, ancestor limit, replacement fee accounting.",
+                text="Random operation sequences (submissions over tx DAGs with chains, shared cell deps and header deps, conflicting submissions with RBF on/off, removals, expiry by virtual time, size-limit eviction with small limits, blocks and reorgs of depth 1..w_far+3, template mining, cell-dep users of cells a pooled transaction spends, submissions parked at the pool lock while a block commits a conflicting transaction, sessions with small max_block_bytes / max_block_cycles with late fills and child-pays-for-parent packages, replacements of several transactions paying exactly the same fee (unrelated / parent+child / diamond) aimed at and just below the threshold, a committed creator taken back into the pool below its pooled dep user and spender and then conflicted out) drive the real TxPoolService; after every operation the dump is judged by recomputation: no double spends, input/dep/header-dep indexes equal the entries, links symmetric and equal to actual spends/deps (L_min subset links subset L_allowed), ancestor/descendant aggregates equal a fold over the link closure (also as reported by get_all_entry_info), totals and per-status counters, ancestor limit, replacement fee accounting.",
                 note=POOL_NOTE),
     "C12": dict(engine="pool", category="exploration", design="4/C12",
                 technique="runtime monitoring: pool dump vs RefChain after every tip change; reorg notification log (hook H5) vs model forks",
-                text="After every tip change (extension, reorg, own template mined) and logical pool quiescence: no pooled tx is committed on the model main chain, every input/dep is live there or a pooled output, header deps are on the main chain, transactions committed only on the abandoned branch and absent from the pool are not admissible (test_accept_tx) unless policy explains it, each entry's stage equals the model's window classification (mine mode), and the pool received one notification per tip change with the model's detached/attached blocks and dropped proposal ids.",
+                text="After every tip change (extension, reorg, own template mined) and logical pool quiescence: no pooled tx is committed on the model main chain, every input/dep is live there or a pooled output, header deps are on the main chain, transactions committed only on the abandoned branch and absent from the pool are not admissible (test_accept_tx) unless policy explains it, each entry's stage equals the model's window classification (mine mode), and the pool received one notification per tip change with the model's detached/attached blocks and dropped proposal ids. A dangling input/dep is attributed to a listed known finding only when the harness's own log of that very tip change proves the listed cause (creator detached by this tip change and not re-admitted; creator in the family of an id the chain reported as dropped); any other way of losing a creator while keeping its descendants is reported.",
                 note=POOL_NOTE),
     "C13": dict(engine="pool", category="exploration", design="4/C13",
                 technique="runtime monitoring: every template is sealed and run through the node's own full verification on a dropped store transaction; a fraction is mined on the node and on a second node",
@@ -134,7 +134,7 @@ engines = [
      "kind_free_text": "parent + crash/recovery child processes; hook H2 (ckb-db durable write counter / abort)"},
     {"name": "freeze", "path": "harness/vmon/src/engines/freeze.rs", "serves_properties": ["C10"],
      "kind_free_text": "parent + build/freeze/restart child processes on a path database with freezer; hooks H2, H4"},
-    {"name": "pool", "path": "harness/vmon/src/engines/pool.rs", "serves_properties": ["C11", "C12", "C13"],
+    {"name": "pool", "path": "harness/vmon/src/engines/pool.rs", "serves_properties": ["C11", "C12", "C13", "C20"],
      "kind_free_text": "real tx-pool service + builder node + RefChain; hook H5"},
     {"name": "codec", "path": "harness/vcodec", "serves_properties": ["C15", "C16"],
      "kind_free_text": "oracles/molecule.py independent codec; harness-fuzz; harness-miri/codec"},
